@@ -42,6 +42,10 @@ PadR(s, w) == s \o Spaces(w - Len(s))
 (* columns a..b (1-based, inclusive) with Python slice semantics on short lines *)
 Cols(line, a, b) == IF a > Len(line) THEN <<>> ELSE SubSeq(line, a, IF b <= Len(line) THEN b ELSE Len(line))
 
+(* TLC keeps [i \in 1..n |-> e] unevaluated and re-evaluates e at every application; as a tuple *)
+(* (bound once in a LET) every element is computed once                                        *)
+Tup(f) == f \o <<>>
+
 RECURSIVE SkipBlank(_, _), SkipNonBlank(_, _), BackBlank(_, _), TokensFrom(_, _)
 SkipBlank(s, i) == IF i <= Len(s) /\ IsBlank(s[i]) THEN SkipBlank(s, i + 1) ELSE i
 SkipNonBlank(s, i) == IF i <= Len(s) /\ ~IsBlank(s[i]) THEN SkipNonBlank(s, i + 1) ELSE i
@@ -204,13 +208,13 @@ SdfReadRecord(L) ==
   IF Len(L) < 5 THEN BadRead ELSE
   LET cn == SdfCountsOf(L[4]) IN
   IF ~cn.ok \/ Len(L) < 5 + cn.na + cn.nb THEN BadRead ELSE
-  LET atoms == [i \in 1..cn.na |-> SdfAtomOf(L[4 + i])]
-      bonds == [j \in 1..cn.nb |-> SdfBondOf(L[4 + cn.na + j])]
+  LET atoms == Tup([i \in 1..cn.na |-> SdfAtomOf(L[4 + i])])
+      bonds == Tup([j \in 1..cn.nb |-> SdfBondOf(L[4 + cn.na + j])])
   IN [ok |-> /\ \A i \in 1..cn.na : atoms[i].ok
              /\ \A j \in 1..cn.nb : bonds[j].ok /\ bonds[j].b[1] \in 1..cn.na /\ bonds[j].b[2] \in 1..cn.na
              /\ \E e \in (5 + cn.na + cn.nb)..Len(L) : L[e] = MEND,
-      atoms |-> [i \in 1..cn.na |-> [z |-> atoms[i].z, c |-> atoms[i].c]],
-      bonds |-> [j \in 1..cn.nb |-> bonds[j].b]]
+      atoms |-> Tup([i \in 1..cn.na |-> [z |-> atoms[i].z, c |-> atoms[i].c]]),
+      bonds |-> Tup([j \in 1..cn.nb |-> bonds[j].b])]
 
 (* ---- the reader step by step (shape of fmt/sdf.py parse_sdf_contents) - *)
 (* state: pc, next line index i, counts, accumulated atoms / bonds.  The as-built loop over    *)
@@ -309,9 +313,9 @@ XyzRead(L) ==
   IF Len(L) < 2 THEN BadRead ELSE
   LET n == UIntOf(StripB(L[1])) IN
   IF ~n.ok \/ Len(L) < 2 + n.v THEN BadRead ELSE
-  LET atoms == [i \in 1..n.v |-> XyzAtomOf(L[2 + i])]
+  LET atoms == Tup([i \in 1..n.v |-> XyzAtomOf(L[2 + i])])
   IN [ok |-> (\A i \in 1..n.v : atoms[i].ok) /\ \A j \in (3 + n.v)..Len(L) : BlankRun(L[j]),
-      atoms |-> [i \in 1..n.v |-> [z |-> atoms[i].z, c |-> atoms[i].c]],
+      atoms |-> Tup([i \in 1..n.v |-> [z |-> atoms[i].z, c |-> atoms[i].c]]),
       bonds |-> <<>>]
 
 (* ---- the reader step by step (shape of fmt/xyz_file.py parse_xyz_string): the count is read *)
